@@ -863,10 +863,20 @@ func (s *seqDriver) opBatched(step int) {
 		for _, hd := range heads[1:] {
 			s.fc.setHead(hd)
 		}
-		s.fc.drainHeadEvents() // every later reset request is now waiting in the scheduler
-		s.fc.release()
-		s.c.Count("batched_gated", 1)
-		s.feat("batched-gated")
+		// every later reset request is now waiting in the scheduler - unless one of the pool's own
+		// periodic ticks (statistics, eviction: they take pool.mu, which the held reset owns) fell
+		// into the window: then the gate is opened and the batch is judged like an ungated one
+		if s.fc.drainHeadEventsWithin(3 * time.Second) {
+			s.fc.release()
+			s.c.Count("batched_gated", 1)
+			s.feat("batched-gated")
+		} else {
+			s.fc.release()
+			s.fc.drainHeadEvents()
+			gated = false
+			note = append(note, "gate abandoned: the pool loop was busy with a periodic tick")
+			s.c.Count("batched_gate_abandoned", 1)
+		}
 	} else {
 		at := -1
 		if len(txs) > 0 {
